@@ -143,17 +143,24 @@ def chainStart (sp : Space) (c : Nat) : Nat :=
   | some ch => ch[0]?.getD ENDOFCHAIN
   | none => ENDOFCHAIN
 
+/-- number of sectors of chain `c` -/
+def chainLen (sp : Space) (c : Nat) : Nat :=
+  match sp.chains[c]? with
+  | some ch => ch.size
+  | none => 0
+
 def streamEntry (streams : List Stream) (L : Layout) (s : Nat) : Bytes :=
   match streams[s]? with
   | some st =>
     dirEntry st.name 2 (if isMini st then chainStart L.mini s else chainStart L.main (3 + s)) st.data.length
   | none => unusedEntry
 
+def slotEntry (streams : List Stream) (L : Layout) : Option Nat → Bytes
+  | some s => streamEntry streams L s
+  | none => unusedEntry
+
 def dirEntries (streams : List Stream) (L : Layout) : List Bytes :=
-  let es := dirEntry rootName 5 (chainStart L.main 2) (64 * L.mtotal) ::
-    L.dirOrder.map fun o => match o with
-      | some s => streamEntry streams L s
-      | none => unusedEntry
+  let es := dirEntry rootName 5 (chainStart L.main 2) (64 * L.mtotal) :: L.dirOrder.map (slotEntry streams L)
   let per := L.ss / 128
   es ++ List.replicate (nsect per es.length * per - es.length) unusedEntry
 
@@ -194,7 +201,7 @@ def header512 (streams : List Stream) (L : Layout) : Bytes :=
             0,
             4096,
             chainStart L.main 1,
-            (match L.main.chains[1]? with | some ch => ch.size | none => 0),
+            chainLen L.main 1,
             L.difIds[0]?.getD ENDOFCHAIN,
             L.ndif ] ++
     le32s ((List.range 109).map (fatIdAt L))
